@@ -272,7 +272,9 @@ pub fn threshold_of(s: &str) -> f64 {
     }
 }
 
-pub const PUNCT: [&str; 16] = [",", ".", ";", "…", "!", "?", ":", ", ", ". ", " ; ", "...", "--", "'", "''", "(", "/"];
+pub const PUNCT: [&str; 20] = [
+    ",", ".", ";", "…", "!", "?", ":", ", ", ". ", " ; ", "...", "--", "'", "''", "(", "/", "\u{2010}", "\u{2011}", "–", "—",
+];
 pub const GLUE: [&str; 8] = [" ", "  ", "\t", "-", "\n", "\u{a0}", "", "\u{2003}"];
 
 /// Like `with_lang!`, but with an interpreter built for this run only: runs stay independent
